@@ -17,6 +17,23 @@ _A.declare("mkatts", *[(k, I) for k in ATT_KEYS])
 Atts = _A.create()
 NOATTS = Atts.mkatts(*[z3.IntVal(0)] * 8)
 
+ATT_FIELDS = [getattr(Atts, k) for k in ATT_KEYS]
+SORTEDKEY = z3.Function("SORTEDKEY", Atts, I, I)    # index (into ATT_KEYS) of the k-th key of sorted(atts)
+NKEYS = z3.Function("NKEYS", Atts, I)               # number of keys present
+
+
+def att_field_at(a, key):
+    """value stored under the key with index `key` (0 = absent)"""
+    t = z3.IntVal(0)
+    for i in reversed(range(len(ATT_KEYS))):
+        t = z3.If(key == i, ATT_FIELDS[i](a), t)
+    return t
+
+
+def att_store(a, key, val):
+    return Atts.mkatts(*[z3.If(key == i, val, ATT_FIELDS[i](a)) for i in range(len(ATT_KEYS))])
+
+
 _C = z3.Datatype("Cell")
 _C.declare("mkcell", ("ch", I), ("catts", Atts))
 Cell = _C.create()
@@ -46,6 +63,7 @@ VIEW = z3.Function("VIEW", SCh, SC)                 # flatMap cells
 TEXT = z3.Function("TEXT", SCh, SI)                 # concat of run texts
 TOTLEN = z3.Function("TOTLEN", SCh, I)              # sum of run lengths
 DROPE = z3.Function("DROP_EMPTY", SCh, SCh)         # filter (\c. len(c.s) > 0)
+DROPJ = z3.Function("DROPJ", SCh, I, I)             # position in xs of the i-th run kept by the filter
 REP = z3.Function("REP", SC, I, SC)                 # cells repeated n times (n <= 0 -> empty)
 BLANKS = z3.Function("BLANKS", I, SC)               # n unformatted spaces as cells
 SPACES = z3.Function("SPACES", I, SI)               # " " * n as text
